@@ -395,6 +395,13 @@ class Array(numpy.lib.mixins.NDArrayOperatorsMixin, metaclass=_ArrayMeta):
                 array = _takeslice(array, it, axis)
                 axis += 1
             else:
+                if getattr(it, 'dtype', None) in (bool, numpy.dtype(bool)) or isinstance(it, (bool, list)) and numpy.asarray(it).dtype == bool:
+                    # a mask selects the positions where it is true
+                    if isinstance(it, Array) or numpy.ndim(it) != 1:
+                        raise IndexError('only constant, one-dimensional boolean masks are supported as index')
+                    if len(it) != array.shape[axis]:
+                        raise IndexError(f'boolean index did not match indexed array along axis {axis}; size of axis is {array.shape[axis]} but size of corresponding boolean axis is {len(it)}')
+                    it, = numpy.nonzero(it)
                 array = numpy.take(array, it, axis)
                 axis += numpy.ndim(it)
         assert axis == array.ndim
@@ -3575,9 +3582,14 @@ class __implementations__:
         length = array.shape[axis]
         indices = util.deep_reduce(numpy.stack, indices)
         if isinstance(indices, Array):
+            if indices.dtype not in (bool, int):
+                raise IndexError('arrays used as indices must be of integer or boolean type')
             indices = _Wrapper.broadcasted_arrays(evaluable.NormDim, length, indices)
         else:
             indices = numpy.array(indices)
+            if indices.dtype.kind not in 'biu' and indices.size:
+                raise IndexError('arrays used as indices must be of integer or boolean type')
+            indices = indices.astype(int)
             indices[indices < 0] += length
             if (indices < 0).any() or (indices >= length).any():
                 raise ValueError('indices out of bounds')
